@@ -3,6 +3,7 @@ package c10
 import (
 	"bytes"
 	"context"
+	"crypto/tls"
 	"fmt"
 	"math/rand"
 	"net"
@@ -150,3 +151,65 @@ func stallProbe(rec *vr.Rec, kind string, reps int, seed int64) {
 }
 
 var _ = vr.Seed
+
+// oversizeAnnouncer: a stream peer announces a frame far larger than the server's maximum message size, sends a little of
+// its body and goes silent. The fault is this peer's alone: the server must get rid of it on the header (its connection
+// is closed) instead of keeping it - and whatever it trickles - around; everybody else is served meanwhile.
+func oversizeAnnouncer(rec *vr.Rec, kind string, reps int) {
+	for rep := 0; rep < reps; rep++ {
+		c := map[string]any{"scenario": "peer announces an oversize frame and stalls", "transport": kind}
+		r := mux.NewRouter()
+		_ = r.Handle("/echo", mux.HandlerFunc(func(w mux.ResponseWriter, m *mux.Message) {
+			body, _ := m.ReadBody()
+			_ = w.SetResponse(codes.Content, message.TextPlain, bytes.NewReader(append([]byte("echo:"), body...)))
+		}))
+		srv, err := netenv.Start(kind, netenv.ServerOpts{Router: r})
+		if err != nil {
+			rec.Inconclusive("cannot start " + kind + " server: " + err.Error())
+			return
+		}
+		var sc net.Conn
+		if kind == "tls" {
+			sc, err = tls.DialWithDialer(&net.Dialer{Timeout: 5 * time.Second}, "tcp4", srv.Addr, srv.ClientTLS())
+		} else {
+			sc, err = net.DialTimeout("tcp4", srv.Addr, 5*time.Second)
+		}
+		if err != nil {
+			rec.Inconclusive("oversize announcer: cannot connect: " + err.Error())
+			srv.Stop()
+			continue
+		}
+		ext := uint32(64<<20 + rep*1000)
+		_, _ = sc.Write([]byte{0xf1, byte(ext >> 24), byte(ext >> 16), byte(ext >> 8), byte(ext), 0x02, 0x77})
+		_, _ = sc.Write(make([]byte, 4096+rep*512))
+		rec.Eval(fmt.Sprintf("oversize-announcer|%s|%d", kind, rep))
+		rec.Count("oversize_announcer_cases_"+kind, 1)
+		// the server closes this connection: the raw peer sees EOF / an error (after the server's own CSM bytes)
+		closed := false
+		deadline := time.Now().Add(6 * time.Second)
+		buf := make([]byte, 512)
+		for time.Now().Before(deadline) {
+			_ = sc.SetReadDeadline(time.Now().Add(500 * time.Millisecond))
+			_, rerr := sc.Read(buf)
+			if rerr != nil {
+				if ne, ok := rerr.(net.Error); ok && ne.Timeout() {
+					continue
+				}
+				closed = true
+				break
+			}
+		}
+		if !closed {
+			rec.Violation("C10/"+kind+"/oversize-announcing-peer-kept", fmt.Sprintf("a peer announced a %d byte frame (server maximum 64 KiB), sent a few KiB and went silent; 6 s later the server had still not closed its connection", ext), c)
+		} else {
+			rec.Count("oversize_announcers_disconnected_"+kind, 1)
+		}
+		_ = sc.Close()
+		srv.Stop()
+		select {
+		case <-srv.Served:
+		case <-time.After(10 * time.Second):
+			rec.Violation("C10/"+kind+"/serve-does-not-return-after-stop", "after the oversize announcer", c)
+		}
+	}
+}
